@@ -275,18 +275,20 @@ def apiInvoke (ctx : Ctx) (fn : Fn) (st : St) (s : Nat) (info : Bool) : St × Op
 
 /-! ### Scope -/
 
-/-- `Scope.Scope(name)`: the child copies the parent's graph nodes and their orders
-    (group-parameter nodes included, repair of F7) -/
+/-- `CopyOrder(parent, child)` for a constructor node; `orders[child] = orders[parent]` for a
+    group-parameter node (repair of F7) -/
+def copyOrder (child parent : Nat) (st : St) : GNode → St
+  | .ctor n => st.modCtor n fun c => { c with orders := setOrder c.orders child (orderOf c.orders parent) }
+  | .pg i => { st with pgs := st.pgs.modify i fun g =>
+      { g with orders := setOrder g.orders child (orderOf g.orders parent) } }
+
+/-- `Scope.Scope(name)`: the child copies the parent's graph nodes and their orders -/
 def apiScope (st : St) (parent : Nat) : St :=
   let child := st.scopes.length
   let p := st.scope parent
   let st := { st with scopes := st.scopes ++ [({ parent := some parent, gh := p.gh } : ScopeSt)] }
   let st := st.modScope parent fun x => { x with children := x.children ++ [child] }
-  p.gh.foldl (fun st node =>
-    match node with
-    | .ctor n => st.modCtor n fun c => { c with orders := setOrder c.orders child (orderOf c.orders parent) }
-    | .pg i => { st with pgs := st.pgs.modify i fun g =>
-        { g with orders := setOrder g.orders child (orderOf g.orders parent) } }) st
+  p.gh.foldl (copyOrder child parent) st
 
 /-! ### the step function -/
 
